@@ -13,6 +13,7 @@ import (
 	"sort"
 	"sync"
 	"sync/atomic"
+	"time"
 
 	"verif/sim/prng"
 )
@@ -24,6 +25,10 @@ type Params struct {
 	Lockstep  bool  `json:"lockstep"`  // wait for round r from everybody before sending round r+1
 	RoundBase uint8 `json:"roundBase"` // number of the first round (rounds are 0..127 on the wire)
 	BodyLen   int   `json:"bodyLen"`
+	// InitDelayMs: Init takes this long on the simulated clock (a backend whose initialisation is not
+	// instantaneous, as with the tss-lib adapters): the orchestrator is parked between the end of the first
+	// synchronisation and the registration of the session's handlers, and other events can land in between
+	InitDelayMs int `json:"initDelayMs,omitempty"`
 }
 
 type Event struct {
@@ -147,6 +152,9 @@ func (b *Backend) ClassifyMsg(msgBytes []byte) (uint8, bool, error) {
 }
 
 func (b *Backend) Init(parties []uint16, threshold int, sendMsg func(msg []byte, isBroadcast bool, to uint16)) {
+	if b.P.InitDelayMs > 0 {
+		time.Sleep(time.Duration(b.P.InitDelayMs) * time.Millisecond)
+	}
 	b.mu.Lock()
 	b.parties = append([]uint16(nil), parties...)
 	b.threshold = threshold
